@@ -199,9 +199,12 @@ def run_case(ctx, case):
                 flat, p, tree = h5.parse_frag(data, container=cont, kind=kind, ns=ns, scripting=scr)
             else:
                 flat, p, tree = h5.parse_doc(data, kind=kind, ns=ns, scripting=scr)
-        except Exception as e:  # C03's business; here it only makes the case unusable
+        except Exception as e:
+            # one configuration gives no tree at all: the configurations differ (and C03 is violated as well)
             ctx.count("parse_raised")
             ctx.add("parse_exceptions", type(e).__name__)
+            ctx.case([data, frag, cont, scr], nontrivial=True)
+            ctx.violation("parse-raised:%s:%s" % (kind, type(e).__name__), case, "%s ns=%s: %s: %s" % (kind, ns, type(e).__name__, str(e)[:200]))
             return
         res[(kind, ns)] = flat
     # the module-level convenience functions (html5lib.parse / parseFragment, builder given by name) are the same
